@@ -21,6 +21,17 @@ def sessions_cases(ctx, n_cases, per=4):
     for _ in range(n_cases):
         ks = [dict(k) for k in rng.sample(pool, 2)]
         for k in ks:
+            if not k["expr"].get("plus") and not k.get("tile") and k.get("style", "tf") == "tf" and rng.random() < 0.5:
+                # an operand rank declared uncompressed (zero factors are delivered) and a body that accumulates every product: the adds onto a non-zero
+                # accumulator are executed and counted whatever the product is
+                # (only at levels where two factors are intersected: a rank declared uncompressed that drives a loop ALONE is walked by the dense
+                # iterators, which tick the counter but trace no access - see DESIGN.md 10.3)
+                cand = [(f["t"], v) for f in k["expr"]["facs"] for v in f["ix"] if sum(1 for g in k["expr"]["facs"] if v in g["ix"]) >= 2]
+                if cand:
+                    t_, v_ = rng.choice(cand)
+                    k["ufmt"] = [[t_, v_]]
+                    k["nofilter"] = 1
+        for k in ks:
             if not k["expr"].get("plus") and rng.random() < 0.25:
                 k["vmap"] = "absorb"          # float operands whose sums absorb the smaller addend: every executed add still counts
         seq = []
@@ -61,7 +72,7 @@ def run(ctx):
     r = tlc.model_check("MC_Metrics.tla", cfg, workers=8)
     design = [family.design_entry("MC_Metrics", "sessions", r, "exhaustive over event sequences: the registers of the Metrics machine equal a reference restarted at every "
                                   "beginCollect, across finished and aborted sessions", ["Isolated", "FreshAfterBegin"])]
-    cases = sessions_cases(ctx, 400 if ctx.quick else 2500)
+    cases = sessions_cases(ctx, 900 if ctx.quick else 4000)
     part = family.run_family(ctx, "C15", cases, "harness.exec_metrics", "MetricsTrace.tla", "MetricsTrace.cfg",
                              op_of=lambda c, lg, st: "sessions", where_of=lambda c, lg, st: "shapeless-output" if c.get("shapeless") else "declared-shape",
                              beh_of=lambda c: {"sessions": c["sessions"]})
